@@ -107,9 +107,7 @@ def spec_Q(d, T, q):
     return Q
 
 
-def recover_factor(Y0, Z0):
-    """S with Y0 = S Z0 (exact rational solve), and a condition estimate of Z0"""
-    n = len(Z0)
+def _solve_factor(Y0, Z0):
     Zi = vlib.minv_frac(Z0)
     if Zi is None:
         return None, float("inf")
@@ -117,6 +115,39 @@ def recover_factor(Y0, Z0):
     nZ = max(sum(abs(x) for x in row) for row in Z0)
     nZi = max(sum(abs(float(x)) for x in row) for row in Zi)
     return S, max(1.0, nZ * nZi)
+
+
+def contract_ok(S, cond, C):
+    n = len(C)
+    SS = vlib.mmul(S, vlib.mT(S))
+    return all(abs(float(SS[i][j] - Fraction(C[i][j]))) <= 256 * n * EPS * cond * (math.sqrt(abs(float(C[i][i])) * abs(float(C[j][j]))) + 1e-300)
+               for i in range(n) for j in range(n))
+
+
+def rearr(Z, order):
+    """the twin's draws arrive as the matrix a column-major fill produces; `rm` = the matrix a row-major fill of the same draws produces"""
+    if order == "cm" or not Z:
+        return Z
+    n, c = len(Z), len(Z[0])
+    d = [Z[i][j] for j in range(c) for i in range(n)]
+    return [[d[i * c + j] for j in range(c)] for i in range(n)]
+
+
+FILL = {"cm": 0, "rm": 0}
+
+
+def recover_factor(Y0, Z0, C=None):
+    """S with Y0 = S Z0 (exact rational solve), a condition estimate of Z0, and the order in which the
+    implementation fills its matrix of draws.  The fill order is not promised by the property: when the
+    column-major reading violates S S^T = C and the row-major one satisfies it, the latter is used."""
+    S, cond = _solve_factor(Y0, Z0)
+    order = "cm"
+    if C is not None and S is not None and not contract_ok(S, cond, C):
+        S2, cond2 = _solve_factor(Y0, rearr(Z0, "rm"))
+        if S2 is not None and contract_ok(S2, cond2, C):
+            S, cond, order = S2, cond2, "rm"
+    FILL[order] += 1
+    return S, cond, order
 
 
 def factor_problems(S, cond, C, what, stats):
@@ -343,10 +374,12 @@ def post_samp(c, stats):
     if not finite(Y0):
         c.probs.append(("prop", "sqrt-contract", "%s: samples are not finite (no real square root S with S S^T = covariance)" % what))
         return
-    S, cond = recover_factor(Y0, Z0)
+    S, cond, order = recover_factor(Y0, Z0, C)
     if S is None:
         c.notes.append("probe draws singular")
         return
+    if order != "cm":
+        c.notes.append("draws fill the matrix in row-major order (the model fills column-major): not promised by C16")
     stats["max_probe_cond"] = max(stats.get("max_probe_cond", 0.0), cond)
     c.probs += factor_problems(S, cond, C, what, stats)
     k = rd.nat()
@@ -357,7 +390,8 @@ def post_samp(c, stats):
         if (yr, yc) != (n, cnt):
             c.probs.append(("prop", key_dim, "%s: getNoiseSample(%d) returned %dx%d, expected %dx%d" % (what, cnt, yr, yc, n, cnt)))
             return
-        c.probs += sample_problems(S, cond, Y, Z, what + " (twin-generator draws, column-major fill)", stats)
+        Z = rearr(Z, order)
+        c.probs += sample_problems(S, cond, Y, Z, what + " (twin-generator draws)", stats)
         calls.append((cnt, Y, Z))
     repro, differs = rd.tok(), rd.tok()
     if repro != "repro":
@@ -454,9 +488,10 @@ def post_motion(c, stats):
         if promised:
             c.probs.append(("prop", "wna-motion", "%s: non-finite result" % what))
         return
-    S, cond = recover_factor(Y0, Z0)
+    S, cond, order = recover_factor(Y0, Z0, spec_Q(d, m["T"], m["q"]))
     if S is None:
         return
+    Z = rearr(Z, order)
     if (mr, mc) != (n, N):
         c.probs.append(("prop", "wna-motion-shape", "%s: result is %dx%d" % (what, mr, mc)))
         return
@@ -860,7 +895,7 @@ def read_traj_extras(rd, tr):
     rd.expect("P")
     _, _, Y0 = rd.shaped()
     _, _, Z0 = rd.shaped()
-    S, cond = recover_factor(Y0, Z0)
+    S, cond, _ = recover_factor(Y0, Z0, spec_Q(tr["d"], tr["T"], tr["q"]))
     return S, Z, cond
 
 
@@ -1081,69 +1116,90 @@ def post_sensor(c, stats):
     rd.expect("PR")
     _, _, Y0 = rd.shaped()
     _, _, Z0 = rd.shaped()
-    SR, condR = recover_factor(Y0, Z0)
+    SR, condR, _ = recover_factor(Y0, Z0, m["R"])
     S, Z, cond = read_traj_extras(rd, tr)
     if SR is None or (tr["kind"] == "wna" and S is None):
         return
     c.probs += factor_problems(SR, condR, m["R"], "SimulatedLinearSensor noise factor", stats)
     xs = traj_exact(tr, S, Z)
-    # oracle: freeze serves the next state (false when exhausted), measurement = x_k[idx] + S_R z
-    cur, meas, used = 0, None, 0
+    # oracle: freeze serves the next state (false when exhausted), measurement = x_k[idx] + S_R z.
+    # Whether a refused freeze consumes draws is not promised: hypothesis "A" = it does not (as coded),
+    # hypothesis "B" = every freeze call consumes one window.
     hist = stats.setdefault("sensor_branch", {})
-    for k, (op, o) in enumerate(zip(ops, got)):
-        if op == "f":
-            if cur >= len(xs):
-                hist["freeze-exhausted"] = hist.get("freeze-exhausted", 0) + 1
-                exp = False
-            else:
-                hist["freeze-true"] = hist.get("freeze-true", 0) + 1
-                exp = True
-                z = D[used:used + mm]
-                if len(z) < mm:
-                    c.probs.append(("prop", "sensor-freeze", "%s: call %d: freeze reported false with states left" % (what, k)))
+
+    def oracle(hyp, count):
+        probs, windows = [], []
+        cur, meas, used, calls = 0, None, 0, 0
+        for k, (op, o) in enumerate(zip(ops, got)):
+            if op == "f":
+                if cur >= len(xs):
+                    if count:
+                        hist["freeze-exhausted"] = hist.get("freeze-exhausted", 0) + 1
+                    exp = False
+                    if hyp == "B":
+                        used += mm
+                else:
+                    if count:
+                        hist["freeze-true"] = hist.get("freeze-true", 0) + 1
+                    exp = True
+                    z = D[used:used + mm]
+                    if len(z) < mm:
+                        probs.append(("prop", "sensor-freeze", "%s: call %d: more freezes than recorded draws" % (what, k)))
+                        break
+                    windows += z
+                    used += mm
+                    meas = ([xs[cur][idx[i]] + sum(SR[i][j] * Fraction(z[j]) for j in range(mm)) for i in range(mm)],
+                            cur, [abs(float(xs[cur][idx[i]])) + rowmag(SR, i) * max(abs(v) for v in z) for i in range(mm)])
+                    cur += 1
+                if o != ("flag", exp):
+                    probs.append(("prop", "sensor-freeze", "%s: call %d: freeze returned %s, expected %s" % (what, k, o[1], exp)))
                     break
-                used += mm
-                meas = ([xs[cur][idx[i]] + sum(SR[i][j] * Fraction(z[j]) for j in range(mm)) for i in range(mm)],
-                        cur, [abs(float(xs[cur][idx[i]])) + rowmag(SR, i) * max(abs(v) for v in z) for i in range(mm)])
-                cur += 1
-            if o != ("flag", exp):
-                c.probs.append(("prop", "sensor-freeze", "%s: call %d: freeze returned %s, expected %s" % (what, k, o[1], exp)))
-                break
-        elif op == "m":
-            hist["measure-empty" if meas is None else "measure"] = hist.get("measure-empty" if meas is None else "measure", 0) + 1
-            if not o[1]:
-                c.probs.append(("prop", "sensor-measure", "%s: call %d: measure reported invalid" % (what, k)))
-                break
-            if meas is None:
-                if o[2] is not None:
-                    c.probs.append(("prop", "sensor-measure", "%s: call %d: a measurement exists before any freeze" % (what, k)))
+            elif op == "m":
+                if count:
+                    hist["measure-empty" if meas is None else "measure"] = hist.get("measure-empty" if meas is None else "measure", 0) + 1
+                if not o[1]:
+                    probs.append(("prop", "sensor-measure", "%s: call %d: measure reported invalid" % (what, k)))
                     break
-                continue
-            y, kx, mag = meas
-            if o[2] is None or len(o[2]) != mm:
-                c.probs.append(("prop", "sensor-measure", "%s: call %d: measurement %s, expected %d values" % (what, k, o[2], mm)))
-                break
-            tolx = state_tol(tr, xs, kx, cond)
-            for i in range(mm):
-                tol = tolx + 256 * mm * EPS * condR * (mag[i] + 1e-300)
-                if abs(float(Fraction(o[2][i]) - y[i])) > tol:
-                    c.probs.append(("prop", "sensor-measure", "%s: call %d: measurement component %d = %.17g, H x_%d + S_R z = %.17g (tol %.3g)"
-                                    % (what, k, i, o[2][i], kx, float(y[i]), tol)))
+                if meas is None:
+                    if o[2] is not None:
+                        probs.append(("prop", "sensor-measure", "%s: call %d: a measurement exists before any freeze" % (what, k)))
+                        break
+                    continue
+                y, kx, mag = meas
+                if o[2] is None or len(o[2]) != mm:
+                    probs.append(("prop", "sensor-measure", "%s: call %d: measurement %s, expected %d values" % (what, k, o[2], mm)))
                     break
-            if c.probs:
-                break
-        elif op == "r":
-            cur = 0
-            if o != ("flag", True):
-                c.probs.append(("prop", "sim-reset", "%s: call %d: reset reported false" % (what, k)))
-                break
-        elif op == "b":
-            exp = cur < len(xs)
-            if exp:
-                cur += 1
-            if o != ("flag", exp):
-                c.probs.append(("prop", "sim-exhausted" if not exp else "sim-served", "%s: call %d: bufferData returned %s" % (what, k, o[1])))
-                break
+                tolx = state_tol(tr, xs, kx, cond)
+                for i in range(mm):
+                    tol = tolx + 256 * mm * EPS * condR * (mag[i] + 1e-300)
+                    if abs(float(Fraction(o[2][i]) - y[i])) > tol:
+                        probs.append(("prop", "sensor-measure", "%s: call %d: measurement component %d = %.17g, H x_%d + S_R z = %.17g (tol %.3g)"
+                                        % (what, k, i, o[2][i], kx, float(y[i]), tol)))
+                        break
+                if probs:
+                    break
+            elif op == "r":
+                cur = 0
+                if o != ("flag", True):
+                    probs.append(("prop", "sim-reset", "%s: call %d: reset reported false" % (what, k)))
+                    break
+            elif op == "b":
+                exp = cur < len(xs)
+                if exp:
+                    cur += 1
+                if o != ("flag", exp):
+                    probs.append(("prop", "sim-exhausted" if not exp else "sim-served", "%s: call %d: bufferData returned %s" % (what, k, o[1])))
+                    break
+        return probs, windows
+
+    pa, wa = oracle("A", True)
+    if pa:
+        pb, wb = oracle("B", False)
+        if not pb:
+            pa, wa = pb, wb
+            c.notes.append("a refused freeze consumes draws (the model draws nothing on a refusal): not promised by C16")
+    c.probs += pa
+    D = wa
     c.st = {"got": got, "xs": xs, "cond": cond, "condR": condR, "SR": SR}
     toks = ["sensor"] + traj_dtoks(tr, S, Z) + [str(mm)] + [str(i) for i in idx] + cm(round_mat(SR)) + [str(len(D))] + hx(D) + [str(len(ops))] + list(ops)
     c.dline = " ".join(toks)
@@ -1356,6 +1412,7 @@ def replay_case(path):
 
 
 def run(ctx):
+    FILL["cm"] = FILL["rm"] = 0
     ctx.proof_stage()
     binary = vlib.build_harness("h_models")
     stats = {}
@@ -1453,6 +1510,7 @@ def run(ctx):
                        "grid_sizes": "nx, ny in 2..6", "sample_counts": "0..4 for every Dim"},
         "model_vs_impl_disagreements": len(corr_bad) + len(shape_bad), "property_failures_on_impl": len(prop_bad),
         "sanitizer_crashes": len(logs), "unpromised_differences_noted": notes,
+        "draw_fill_order_observed": dict(FILL),
     })
     ctx.notes += ["%s (x%d)" % (k, v) for k, v in sorted(notes.items())][:10]
     ctx.assumptions += [
